@@ -33,7 +33,7 @@ def scopes(chk):
     common = {'ComPool': [], 'Seps': [''], 'VerbNames': [], 'ListNames': ['itemize'], 'Labels': [''], 'ExtraQueries': ['a', 'cup', 'math', 'displaymath', '$', '$$']}
     sc = []
     p = dict(common)
-    p.update({'Budget': 3 if quick else 4, 'TextPool': ['t', '\\$', ' ', 't\\\\'], 'MathTextPool': ['x', '(', ')[(', '[0,1)', ']', 'a\\$b', '\\$', 'x\\\\'],
+    p.update({'Budget': 3 if quick else 4, 'TextPool': ['t', '\\$', ' ', 't\\\\'], 'MathTextPool': ['x', '(', ')[(', '[0,1)', ']', 'a\\$b', '\\$', 'x\\\\', 'a \\\\[0,1)'],
               'CmdNames': ['a'], 'EnvNames': ['e'], 'MathKinds': KINDS, 'MEnvNames': ['equation', 'align*'],
               'Leaves': [cmd0('cup'), cmd0('in'), DEF_MATH, DEF_MATH2], 'MaxSib': 2, 'MaxArgs': 1, 'MaxDepth': 3})
     sc.append(('bodies', p))
